@@ -259,3 +259,61 @@ func H17Fence() {
 		vndAssert(m.Min == mn && m.Max == mx, "min-max-of-the-retained-values")
 	}
 }
+
+// H17ConstMean: a sample of equal values has min = mean = max = that value
+// (min <= mean <= max leaves no other choice).
+func H17ConstMean() {
+	n := vndParam("n")
+	v := vndFloat64("v")
+	vndAssume(h17Bounded(v))
+	vals := make([]float64, n)
+	for i := range vals {
+		vals[i] = v
+	}
+	m := &Metrics{Unit: "ns/op", Values: vals}
+	m.computeStats()
+	vndReach("h17:const")
+	vndAssert(len(m.RValues) == n, "constant-sample-keeps-every-value")
+	vndAssert(m.Min == v && m.Max == v, "constant-sample-min-max")
+	vndAssert(m.Mean == v, "constant-sample-mean-between-min-and-max")
+}
+
+// H17Groups: with SplitBy, every (group, benchmark) metric holds exactly the
+// values of the results carrying that label and name, in input order.
+func H17Groups() {
+	h17Vals, h17Next = nil, 0
+	n := vndParam("results")
+	pk := make([]byte, n)
+	nm := make([]byte, n)
+	var rs []*benchfmt.Result
+	for i := 0; i < n; i++ {
+		pk[i] = []byte{'a', 'b'}[vndChoice("pkg", 2)]
+		nm[i] = []byte{'X', 'Y'}[vndChoice("name", 2)]
+		r := h17Result(string(nm[i:i+1]), float64(3+2*i), "ns/op")
+		r.Labels["pkg"] = string(pk[i : i+1])
+		rs = append(rs, r)
+	}
+	c := &Collection{SplitBy: []string{"pkg"}}
+	c.AddResults("only", rs)
+	vndReach("h17:groups")
+	for _, g := range []byte{'a', 'b'} {
+		for _, b := range []byte{'X', 'Y'} {
+			var want []float64
+			for i := 0; i < n; i++ {
+				if pk[i] == g && nm[i] == b {
+					want = append(want, float64(3+2*i))
+				}
+			}
+			m := c.Metrics[Key{Config: "only", Group: "pkg:" + string([]byte{g}), Benchmark: string([]byte{b}), Unit: "ns/op"}]
+			if len(want) == 0 {
+				vndAssert(m == nil, "no-metric-without-values")
+				continue
+			}
+			ok := m != nil && len(m.Values) == len(want)
+			for i := 0; ok && i < len(want); i++ {
+				ok = m.Values[i] == want[i]
+			}
+			vndAssert(ok, "group-metric-holds-exactly-its-results-values-in-input-order")
+		}
+	}
+}
